@@ -21,7 +21,7 @@ def pred_iter0_no_sweep(cfg, run, ln, clause):
         return False
     for i, p in enumerate(line['running']):
         o = line['orc'][i]
-        if o['done201'] and not o['fd'] and line['iter'][p] == 0:
+        if line['stage'][p] == 'DONE' and not o['fd'] and line['iter'][p] == 0:
             return True
     return False
 
